@@ -288,10 +288,10 @@ def recordExec (s ns : GState) (nd : NodeD) : GState :=
                     waitForVersions := nd.waitFor.map fun w => (w, s.ver w) }
   { ns with execs := AL.put ns.execs nd.name e }
 
-def routeEvent (runSpan : Span) (nd : NodeD) (ns : GState) : List Log :=
+def routeEvent (runSpan : Span) (k : Nat) (nd : NodeD) (ns : GState) : List Log :=
   if nd.isGate then
     match AL.get? ns.decisions nd.name with
-    | some d => [.ev { kind := "RouteDecision", span := runSpan ++ [nd.name ++ "!route"], parent := some runSpan,
+    | some d => [.ev { kind := "RouteDecision", span := runSpan ++ [nd.name ++ "!route#" ++ toString k], parent := some runSpan,
                        name := nd.name, info := decToString d }]
     | .none => []
   else []
@@ -322,7 +322,7 @@ def stepSync (nested : Nested) (sem : Sem) (gi : Nat) (g : GraphD) (runSpan : Sp
         | .ok outs =>
           let ns2 := recordExec s (ns1.applyOutputs outs) nd
           stepSync nested sem gi g runSpan k s rest ns2
-            (log ++ [startEv] ++ out.log ++ routeEvent runSpan nd ns1 ++
+            (log ++ [startEv] ++ out.log ++ routeEvent runSpan k nd ns1 ++
               [.ev { kind := "NodeEnd", span := sp, parent := some runSpan, name := nd.name }])
 
 /-- result of one concurrently executed node -/
@@ -356,7 +356,7 @@ def stepAsync (nested : Nested) (sem : Sem) (gi : Nat) (g : GraphD) (runSpan : S
         | .none => ns0
       let endEv : List Log := match out.pause, out.res with
         | some _, _ => []
-        | .none, .ok _ => routeEvent runSpan nd decState ++
+        | .none, .ok _ => routeEvent runSpan k nd decState ++
             [.ev { kind := "NodeEnd", span := sp, parent := some runSpan, name := nd.name }]
         | .none, .error _ => [.ev { kind := "NodeError", span := sp, parent := some runSpan, name := nd.name }]
       { nd := nd, out := { out with log := [startEv] ++ out.log ++ endEv } }
@@ -383,26 +383,26 @@ def stepAsync (nested : Nested) (sem : Sem) (gi : Nat) (g : GraphD) (runSpan : S
 /-! ## the runner loop -/
 
 inductive LoopOut
-  | done (s : GState) (log : List Log)
-  | fail (e : ErrId) (partialState : GState) (log : List Log)
-  | pause (p : PauseInfo) (partialState : GState) (log : List Log)
+  | done (s : GState) (log : List Log) (steps : Nat)
+  | fail (e : ErrId) (partialState : GState) (log : List Log) (steps : Nat)
+  | pause (p : PauseInfo) (partialState : GState) (log : List Log) (steps : Nat)
   deriving Inhabited
 
 /-- `_execute_graph_impl`: at most `fuel` supersteps (`for _ in range(max_iterations)` with its
 `else:` re-check of the ready set). `k` counts the steps taken so far. -/
 def runLoop (step : Nat → GState → List NodeD → StepOut) (g : GraphD) (active : Option (List Name))
     (maxIter : Nat) : Nat → Nat → GState → List Log → LoopOut
-  | 0, _, s, log =>
+  | 0, k, s, log =>
     let (rs, s1) := ready g active s
-    if rs.isEmpty then .done s1 log else .fail (.infiniteLoop maxIter) s1 log
+    if rs.isEmpty then .done s1 log k else .fail (.infiniteLoop maxIter) s1 log k
   | fuel + 1, k, s, log =>
     match ready g active s with
-    | ([], s1) => .done s1 log
+    | ([], s1) => .done s1 log k
     | (rs, s1) =>
       match step k s1 rs with
       | .ok ns l => runLoop step g active maxIter fuel (k + 1) ns (log ++ l)
-      | .fail e ps l => .fail e ps (log ++ l)
-      | .pause p l => .pause p s1 (log ++ l)
+      | .fail e ps l => .fail e ps (log ++ l) (k + 1)
+      | .pause p l => .pause p s1 (log ++ l) (k + 1)
 
 /-! ## `run` and `map` -/
 
@@ -432,14 +432,14 @@ def runGraph (nested : Nested) (sem : Sem) (runner : Runner) (gi : Nat) (g : Gra
           | .error _ => []
       { status := .failed, values := vals, error := some e, log := log }
   match runLoop step g (activeNodeSet g) cfg.maxIter cfg.maxIter 0 (initState values) startLog with
-  | .done s log =>
+  | .done s log _ =>
     match filterOutputs g s cfg.select cfg.onMissing with
     | .ok (vals, w) =>
       { status := .completed, values := vals, warnings := w
         log := log ++ [runEndEv span parent g "completed"] ++ shut }
     | .error e => failWith e .none log
-  | .fail e ps log => failWith e (some ps) log
-  | .pause p ps log =>
+  | .fail e ps log _ => failWith e (some ps) log
+  | .pause p ps log _ =>
     let vals := match filterOutputs g ps cfg.select .ignore with
       | .ok (v, _) => v
       | .error _ => []
